@@ -186,11 +186,39 @@ func TestC20(t *testing.T) {
 	chk := c20Fault.On(col, "fault enumeration: rapid-generated programs covering every tag (objects, assign, if/unless/case, for and tablerow with else/break/continue, cycle, capture, comment, raw, include of a cached template, whitespace-control hyphens); a fault-free FRender into a recording writer gives the W write calls, then for EVERY k in 0..W-1 x {the writer accepts nothing, accepts a strict prefix} x {Template.FRender, Engine.ParseAndFRender} a sticky fault writer fails at call k with a sentinel error. Oracle: no panic; a non-nil SourceError whose message or cause chain carries the sentinel; the accepted bytes are a prefix of the fault-free output; evaluation stops (counting filters evaluated <= the fault-free count at the write after next; at most one further Write call). evaluations counts fault points; non-trivial: W >= 3 and (k > 0 or a partial write); distinct by (template, k, mode, entry point)", false)
 	chk.Sub.Exhaustive = false
 	prof := hx.FullProfile()
-	prof.Tablerow, prof.WSText, prof.Ticks, prof.MaxNodes = true, true, true, 10
+	prof.Tablerow, prof.WSText, prof.Ticks, prof.MaxNodes, prof.BareJumps = true, true, true, 10, true
 	col.Rapid(chk.Sub, env.PerShard(env.Pick(1500, 60000)), func(t *rapid.T) {
 		p := hx.GenProgram(t, prof)
+		// values that print as several writes or as nothing (arrays with nil / empty tails), at random places
+		for i, n := 0, rapid.IntRange(0, 2).Draw(t, "arrays"); i < n; i++ {
+			obj := hx.Obj(rapid.SampledFrom([]*hx.E{hx.Var("x"), hx.Var("w"), hx.Var("a"), hx.Var("tail"), hx.Flt(hx.Var("x"), "reverse"), hx.Var("nl")}).Draw(t, "arr"))
+			at := rapid.IntRange(0, len(p.Nodes)).Draw(t, "at")
+			p.Nodes = append(p.Nodes[:at:at], append([]*hx.N{obj}, p.Nodes[at:]...)...)
+		}
+		p.Binds["tail"] = hx.SArr(hx.SStr("p"), hx.SNil(), hx.SStr(""))
+		// templates that end in a loop, a jump or an empty print: the last flush is the interesting one
+		if rapid.Bool().Draw(t, "strip-tail") {
+			for len(p.Nodes) > 1 && p.Nodes[len(p.Nodes)-1].T == "text" {
+				p.Nodes = p.Nodes[:len(p.Nodes)-1]
+			}
+		}
+		// ... or in a loop whose last action is a break / continue with output still buffered
+		endsInJump := rapid.IntRange(0, 3).Draw(t, "jump-ending") == 0
+		if endsInJump {
+			jump := &hx.N{T: rapid.SampledFrom([]string{"break", "continue"}).Draw(t, "jk")}
+			body := []*hx.N{hx.Text(rapid.SampledFrom([]string{"", "<", " "}).Draw(t, "jt")), hx.Obj(hx.Var("i"))}
+			switch rapid.IntRange(0, 2).Draw(t, "jump-place") {
+			case 0:
+				body = append(body, jump)
+			case 1:
+				body = append(body, &hx.N{T: "if", E: hx.Cmp("==", hx.Prop(hx.Var("forloop"), "index"), hx.LInt(int64(rapid.IntRange(1, 3).Draw(t, "jat")))), Body: []*hx.N{jump}}, hx.Text("-"))
+			default:
+				body = append(body, &hx.N{T: "if", E: hx.Prop(hx.Var("forloop"), "last"), Body: []*hx.N{jump}}, hx.Text("-"))
+			}
+			p.Nodes = append(p.Nodes, &hx.N{T: rapid.SampledFrom([]string{"for", "for", "tablerow"}).Draw(t, "jl"), S: "i", E: hx.RangeE(hx.LInt(1), hx.LInt(3)), Body: body})
+		}
 		tickify(p.Nodes)
-		c := &c20Case{P: p, Incl: rapid.IntRange(0, 2).Draw(t, "incl") == 0}
+		c := &c20Case{P: p, Incl: !endsInJump && rapid.IntRange(0, 2).Draw(t, "incl") == 0}
 		if rapid.Bool().Draw(t, "hyphens") {
 			k := hx.CountTags(hx.Tokens(p.Nodes, nil))
 			c.Hy = rapid.SliceOfN(rapid.Bool(), 2*k, 2*k).Draw(t, "hy")
